@@ -257,8 +257,19 @@ fn get_diagnostics(src: &str, path: &PathBuf) -> Vec<Diagnostic> {
                 Severity::Warning => DiagnosticSeverity::Warning,
             };
 
+            // Errors found while loading an imported file have
+            // positions in that file, not in this document.
+            let range = if position.vfs_path == vfs_path {
+                garden_pos_to_lsp_range(src, &position)
+            } else {
+                match env.vfs.file_src(&position.vfs_path) {
+                    Some(other_src) => garden_pos_to_lsp_range(other_src, &position),
+                    None => garden_pos_to_lsp_range_no_src(&position),
+                }
+            };
+
             diagnostics.push(Diagnostic {
-                range: garden_pos_to_lsp_range(src, &position),
+                range,
                 severity: Some(lsp_severity),
                 message: message.as_string(),
                 ..Default::default()
